@@ -302,6 +302,10 @@ func hazards() []hazard {
 		"import (\n\t\"context\"\n\n\t\"go.uber.org/cff\"\n)\n\nfunc Run(ctx context.Context, n int) (string, error) {\n\tvar out string\n\terr := cff.Flow(ctx,\n//line tmpl.go:10\n\t\tcff.Params(n),\n//line tmpl.go:10\n\t\tcff.Results(&out),\n//line tmpl.go:10\n\t\tcff.Task(func(i int) (string, error) { return string(rune('a' + i%26)), nil }),\n//line p.go:30\n\t)\n\treturn out, err\n}\n", nil)
 	add("line-directives:decreasing", "accept",
 		"import (\n\t\"context\"\n\n\t\"go.uber.org/cff\"\n)\n\nfunc Run(ctx context.Context, n int) (string, error) {\n\tvar out string\n\terr := cff.Flow(ctx,\n//line tmpl.go:300\n\t\tcff.Params(n),\n//line tmpl.go:200\n\t\tcff.Results(&out),\n//line tmpl.go:100\n\t\tcff.Task(func(i int) (string, error) { return string(rune('a' + i%26)), nil }),\n//line p.go:30\n\t)\n\treturn out, err\n}\n", nil)
+	add("line-directives:end-of-flow-on-line-1", "accept",
+		"import (\n\t\"context\"\n\n\t\"go.uber.org/cff\"\n)\n\nfunc Run(ctx context.Context, n int) (string, error) {\n\tvar out string\n\terr := cff.Flow(ctx,\n\t\tcff.Params(n),\n\t\tcff.Results(&out),\n\t\tcff.Task(func(i int) (string, error) { return string(rune('a' + i%26)), nil }),\n//line tmpl.go:1\n\t)\n\treturn out, err\n}\n", nil)
+	add("line-directives:end-of-parallel-on-line-1", "accept",
+		"import (\n\t\"context\"\n\n\t\"go.uber.org/cff\"\n)\n\nfunc Run(ctx context.Context, n int) error {\n\treturn cff.Parallel(ctx,\n\t\tcff.Task(func() error { _ = n; return nil }),\n//line tmpl.go:1\n\t)\n}\n", nil)
 	// signatures at the edge of what cff supports: whatever it decides, it must
 	// not accept them and then write code that does not compile
 	add("predicate-returns-defined-bool", "accept",
